@@ -1,8 +1,8 @@
-import Dashu.Proofs.Cross.BitLen
+import Dashu.Proofs.Cross.Fixed
 import Dashu.Proofs.Cross.SameBase
 /-
   C14 proofs — the dispatch tables (`numPartialCmpK`, `absCmpK`): every implemented type pair
-  returns the order of the exact values, outside the input classes of the recorded defects.
+  returns the order of the exact values.
 -/
 namespace Dashu.Model.Cross
 
@@ -93,24 +93,10 @@ theorem ibigCmpUbig_spec (a : Int) (b : Nat) :
   · rw [Sign.ofInt_pos.2 h, cmpN_cast, Int.natCast_natAbs, abs_of_nonneg h]
     simp
 
-theorem defect1_fin {k : Kind} {man exp : Int} (h : numCmpDefect1 k (.fin man exp) = none) :
-    defectA k man exp = false := by
-  simp only [numCmpDefect1] at h
-  cases hd : defectA k man exp
-  · rfl
-  · simp [hd] at h
-
-theorem defect1_inf {k : Kind} {neg : Bool} (h : numCmpDefect1 k (.inf neg) = none) :
-    defectF k neg = false := by
-  simp only [numCmpDefect1] at h
-  cases hd : defectF k neg
-  · rfl
-  · simp [hd] at h
-
 /-- NumOrd over the whole table of implemented pairs (operand kinds): the order of the exact
-    values for every sound oracle, outside the recorded defect classes (`numCmpDefectK`). -/
-theorem numPartialCmpK_partial {o : Oracle} (ho : o.Sound) (k1 k2 : Kind) (w1 : k1.WF) (w2 : k2.WF)
-    (hd : numCmpDefectK k1 k2 = none) {r : Option Ordering} (h : numPartialCmpK o k1 k2 = some r) :
+    values for every sound oracle. -/
+theorem numPartialCmpK_spec {o : Oracle} (ho : o.Sound) (k1 k2 : Kind) (w1 : k1.WF) (w2 : k2.WF)
+    {r : Option Ordering} (h : numPartialCmpK o k1 k2 = some r) :
     r = XVal.cmp k1.value k2.value := by
   cases k1 <;> cases k2 <;> simp only [numPartialCmpK, Option.some.injEq] at h <;>
     simp only [Kind.value, Kind.WF] at * <;> try subst h
@@ -126,8 +112,7 @@ theorem numPartialCmpK_partial {o : Oracle} (ho : o.Sound) (k1 k2 : Kind) (w1 : 
     exact swap_some_eq (ratReprCmpUbig_spec ho n w2 r)
   · -- nat pf
     rename_i x t dec
-    exact ubigNumOrdFloat_partial t x dec w2
-      (fun man exp hdec => by subst hdec; exact defect1_fin (by simpa [numCmpDefectK] using hd))
+    exact ubigNumOrdFloat_spec t x dec w2
   · exact ibigCmpUbig_spec _ _
   · -- int int
     simp [XVal.cmp]
@@ -136,9 +121,7 @@ theorem numPartialCmpK_partial {o : Oracle} (ho : o.Sound) (k1 k2 : Kind) (w1 : 
   · rename_i r b n d
     exact swap_some_eq (ratReprCmpIbig_spec ho n w2 r)
   · rename_i x t dec
-    exact ibigNumOrdFloat_partial t x dec w2
-      (fun man exp hdec => by subst hdec; exact defect1_fin (by simpa [numCmpDefectK] using hd))
-      (fun neg hdec => by subst hdec; exact defect1_inf (by simpa [numCmpDefectK] using hd))
+    exact ibigNumOrdFloat_spec t x dec w2
   · rename_i B s e p r
     exact floatReprCmpUbig_spec ho w1.1 s e r p
   · rename_i B s e p r
@@ -148,8 +131,7 @@ theorem numPartialCmpK_partial {o : Oracle} (ho : o.Sound) (k1 k2 : Kind) (w1 : 
   · rename_i B s e p b n d
     exact swap_some_eq (ratReprCmpFbig_spec ho n w2 w1.1 s e p)
   · rename_i B s e p t dec
-    exact reprNumOrdFloat_partial t w1.1 s e p dec w2
-      (fun man exp hdec => by subst hdec; exact defect1_fin (by simpa [numCmpDefectK] using hd))
+    exact reprNumOrdFloat_spec t w1.1 s e p dec w2
   · rename_i b n d r
     exact ratReprCmpUbig_spec ho n w1 r
   · rename_i b n d r
@@ -164,42 +146,29 @@ theorem numPartialCmpK_partial {o : Oracle} (ho : o.Sound) (k1 k2 : Kind) (w1 : 
       exact ratReprCmp_spec n1 w1 n2 w2
     · exact absurd h (by simp)
   · rename_i b n d t dec
-    rw [ratNumOrdFloat_partial t n w1 dec w2
-      (fun man exp hdec => by
-        subst hdec
-        rw [← defectA_rat_flag b]
-        exact defect1_fin (by simpa [numCmpDefectK] using hd))]
+    rw [ratNumOrdFloat_spec t n w1 dec w2]
   · rename_i t dec x
-    exact swapO_eq (ubigNumOrdFloat_partial t x dec w1
-      (fun man exp hdec => by subst hdec; exact defect1_fin (by simpa [numCmpDefectK] using hd)))
+    exact swapO_eq (ubigNumOrdFloat_spec t x dec w1)
   · rename_i t dec x
-    exact swapO_eq (ibigNumOrdFloat_partial t x dec w1
-      (fun man exp hdec => by subst hdec; exact defect1_fin (by simpa [numCmpDefectK] using hd))
-      (fun neg hdec => by subst hdec; exact defect1_inf (by simpa [numCmpDefectK] using hd)))
+    exact swapO_eq (ibigNumOrdFloat_spec t x dec w1)
   · rename_i t dec B s e p
-    exact swapO_eq (reprNumOrdFloat_partial t w2.1 s e p dec w1
-      (fun man exp hdec => by subst hdec; exact defect1_fin (by simpa [numCmpDefectK] using hd)))
+    exact swapO_eq (reprNumOrdFloat_spec t w2.1 s e p dec w1)
   · rename_i t dec b n d
-    exact swapO_eq (ratNumOrdFloat_partial t n w2 dec w1
-      (fun man exp hdec => by
-        subst hdec
-        rw [← defectA_rat_flag b]
-        exact defect1_fin (by simpa [numCmpDefectK] using hd)))
+    exact swapO_eq (ratNumOrdFloat_spec t n w2 dec w1)
   · exact absurd h (by simp)
 
 -- ------------------------------------------------------------------ protocol numbers
 
 /-- NumOrd on protocol numbers: `num_partial_cmp` (and hence every derived method) returns the
-    order of the exact values — `none` exactly for NaN — for every sound oracle, outside the
-    recorded defect classes. -/
-theorem numPartialCmp_partial {o : Oracle} (ho : o.Sound) (x y : Num) (wx : x.WF) (wy : y.WF)
-    (hd : numCmpDefect x y = none) {r : Option Ordering} (h : numPartialCmp o x y = some r) :
+    order of the exact values — `none` exactly for NaN — for every sound oracle. -/
+theorem numPartialCmp_spec {o : Oracle} (ho : o.Sound) (x y : Num) (wx : x.WF) (wy : y.WF)
+    {r : Option Ordering} (h : numPartialCmp o x y = some r) :
     r = XVal.cmp x.value y.value := by
   unfold numPartialCmp at h
   split at h
   · exact absurd h (by simp)
   · rw [← Num.kind_value wx, ← Num.kind_value wy]
-    exact numPartialCmpK_partial ho _ _ (Num.kind_wf wx) (Num.kind_wf wy) hd h
+    exact numPartialCmpK_spec ho _ _ (Num.kind_wf wx) (Num.kind_wf wy) h
 
 /-- limited precision bounds the digits (needed by the same-base shortcut only) -/
 def Kind.PrecOK : Kind → Prop
@@ -215,40 +184,10 @@ theorem Num.kind_precOK {x : Num} (h : x.PrecOK) : x.kind.PrecOK := by
   | pint t v => by_cases hs : t.signed = true <;> simp [Num.kind, hs, Kind.PrecOK]
   | _ => simpa [Num.kind, Kind.PrecOK, Num.PrecOK] using h
 
-theorem absDefect1_nat {s e : Int} {r : Nat} (h : absCmpDefect1 s e (.nat r) = none) : 0 ≤ s := by
-  unfold absCmpDefect1 at h
-  cases hi : fIsInf s e
-  · simp only [hi, Bool.false_eq_true, if_false] at h
-    by_contra hc
-    have : s < 0 := by omega
-    simp [this] at h
-  · have : s = 0 := by simp [fIsInf] at hi; exact hi.1
-    omega
-
-theorem absDefect1_int {s e r : Int} (h : absCmpDefect1 s e (.int r) = none) :
-    fIsInf s e = true ∨ (0 ≤ s ∧ 0 ≤ r) := by
-  unfold absCmpDefect1 at h
-  cases hi : fIsInf s e
-  · right
-    simp only [hi, Bool.false_eq_true, if_false] at h
-    by_contra hc
-    have : s < 0 ∨ r < 0 := by omega
-    rcases this with h' | h' <;> simp [h'] at h
-  · left; rfl
-
-/-- infinite float against anything finite, magnitudes -/
-theorem floatReprCmpIbig_abs_inf {o : Oracle} {B : Nat} {s e r : Int} (p : Nat)
-    (hi : fIsInf s e = true) :
-    some (floatReprCmpIbig o true B s e r) = XVal.absCmp (Num.fbig B s e p).value (Num.ibig r).value := by
-  unfold floatReprCmpIbig
-  rw [fbig_value_inf p hi]
-  simp only [hi, if_true, Bool.or_true, Num.value]
-  by_cases he : e > 0 <;> simp [he, XVal.absCmp, XVal.abs, XVal.cmp]
-
 /-- AbsOrd over the whole table of implemented pairs (operand kinds): the order of the magnitudes
-    for every sound oracle, outside the recorded defect class (`absCmpDefectK`). -/
-theorem absCmpK_partial {o : Oracle} (ho : o.Sound) (k1 k2 : Kind) (w1 : k1.WF) (w2 : k2.WF)
-    (p1 : k1.PrecOK) (p2 : k2.PrecOK) (hd : absCmpDefectK k1 k2 = none) {r : Ordering}
+    for every sound oracle. -/
+theorem absCmpK_spec {o : Oracle} (ho : o.Sound) (k1 k2 : Kind) (w1 : k1.WF) (w2 : k2.WF)
+    (p1 : k1.PrecOK) (p2 : k2.PrecOK) {r : Ordering}
     (h : absCmpK o k1 k2 = some r) : some r = XVal.absCmp k1.value k2.value := by
   cases k1 <;> cases k2 <;> simp only [absCmpK, Option.some.injEq] at h <;>
     simp only [Kind.value, Kind.WF, Kind.PrecOK] at * <;> try subst h
@@ -257,8 +196,7 @@ theorem absCmpK_partial {o : Oracle} (ho : o.Sound) (k1 k2 : Kind) (w1 : k1.WF) 
   · rename_i a b
     simp [XVal.absCmp, XVal.abs, XVal.cmp, cmpN_cast]
   · rename_i r B s e p
-    have hs := absDefect1_nat (by simpa [absCmpDefectK] using hd : absCmpDefect1 s e (.nat r) = none)
-    exact swap_some_abs_eq (floatReprCmpUbig_abs_partial ho w2.1 s e r p hs)
+    exact swap_some_abs_eq (floatReprCmpUbig_abs_spec ho w2.1 s e r p)
   · rename_i r b n d
     exact swap_some_abs_eq (ratReprCmpUbig_abs_spec ho n w2 r)
   · exact absurd h (by simp)
@@ -267,21 +205,14 @@ theorem absCmpK_partial {o : Oracle} (ho : o.Sound) (k1 k2 : Kind) (w1 : k1.WF) 
   · rename_i a b
     simp [XVal.absCmp, XVal.abs, XVal.cmp, cmpN_cast]
   · rename_i r B s e p
-    rcases absDefect1_int (by simpa [absCmpDefectK] using hd : absCmpDefect1 s e (.int r) = none)
-      with hi | ⟨hs, hr⟩
-    · exact swap_some_abs_eq (floatReprCmpIbig_abs_inf p hi)
-    · exact swap_some_abs_eq (floatReprCmpIbig_abs_partial ho w2.1 s e r p hs hr)
+    exact swap_some_abs_eq (floatReprCmpIbig_abs_spec ho w2.1 s e r p)
   · rename_i r b n d
     exact swap_some_abs_eq (ratReprCmpIbig_abs_spec ho n w2 r)
   · exact absurd h (by simp)
   · rename_i B s e p r
-    have hs := absDefect1_nat (by simpa [absCmpDefectK] using hd : absCmpDefect1 s e (.nat r) = none)
-    exact floatReprCmpUbig_abs_partial ho w1.1 s e r p hs
+    exact floatReprCmpUbig_abs_spec ho w1.1 s e r p
   · rename_i B s e p r
-    rcases absDefect1_int (by simpa [absCmpDefectK] using hd : absCmpDefect1 s e (.int r) = none)
-      with hi | ⟨hs, hr⟩
-    · exact floatReprCmpIbig_abs_inf p hi
-    · exact floatReprCmpIbig_abs_partial ho w1.1 s e r p hs hr
+    exact floatReprCmpIbig_abs_spec ho w1.1 s e r p
   · rename_i B1 s1 e1 q1 B2 s2 e2 q2
     split at h
     · rename_i hB
@@ -304,15 +235,15 @@ theorem absCmpK_partial {o : Oracle} (ho : o.Sound) (k1 k2 : Kind) (w1 : k1.WF) 
   all_goals exact absurd h (by simp)
 
 /-- AbsOrd on protocol numbers -/
-theorem absCmp_partial {o : Oracle} (ho : o.Sound) (x y : Num) (wx : x.WF) (wy : y.WF)
-    (px : x.PrecOK) (py : y.PrecOK) (hd : absCmpDefect x y = none) {r : Ordering}
+theorem absCmp_spec {o : Oracle} (ho : o.Sound) (x y : Num) (wx : x.WF) (wy : y.WF)
+    (px : x.PrecOK) (py : y.PrecOK) {r : Ordering}
     (h : absCmp o x y = some r) : some r = XVal.absCmp x.value y.value := by
   unfold absCmp at h
   split at h
   · exact absurd h (by simp)
   · rw [← Num.kind_value wx, ← Num.kind_value wy]
-    exact absCmpK_partial ho _ _ (Num.kind_wf wx) (Num.kind_wf wy) (Num.kind_precOK px)
-      (Num.kind_precOK py) hd h
+    exact absCmpK_spec ho _ _ (Num.kind_wf wx) (Num.kind_wf wy) (Num.kind_precOK px)
+      (Num.kind_precOK py) h
 
 /-- `Ord`/`PartialOrd` of two numbers of one type (UBig, IBig, FBig of one base, RBig, Relaxed) -/
 theorem ordCmp_spec {o : Oracle} (ho : o.Sound) (x y : Num) (wx : x.WF) (wy : y.WF)
@@ -337,8 +268,8 @@ theorem ordCmp_spec {o : Oracle} (ho : o.Sound) (x y : Num) (wx : x.WF) (wy : y.
 
 /-- `num_eq` (trait default, or the `repr_eq` override of the RBig/Relaxed pair) decides equality
     of the exact values -/
-theorem numEq_partial {o : Oracle} (ho : o.Sound) (x y : Num) (wx : x.WF) (wy : y.WF)
-    (hd : numCmpDefect x y = none) {b : Bool} (h : numEq o x y = some b) :
+theorem numEq_spec {o : Oracle} (ho : o.Sound) (x y : Num) (wx : x.WF) (wy : y.WF)
+    {b : Bool} (h : numEq o x y = some b) :
     b = (XVal.cmp x.value y.value == some .eq) := by
   unfold numEq at h
   split at h
@@ -360,6 +291,6 @@ theorem numEq_partial {o : Oracle} (ho : o.Sound) (x y : Num) (wx : x.WF) (wy : 
     | some r =>
       rw [hr] at h
       simp only [Option.map_some, Option.some.injEq] at h
-      rw [← h, numPartialCmp_partial ho x y wx wy hd hr]
+      rw [← h, numPartialCmp_spec ho x y wx wy hr]
 
 end Dashu.Model.Cross
